@@ -371,6 +371,19 @@ fn sync_scenario(rng: &mut StdRng, sc: usize, out: Box<dyn std::io::Write>, kv: 
             env.grow(&sim, i, rng.gen_range(0..=3));
         }
         pump(&mut sim, &mut env, rng, interval);
+        // now and then the peers answer filter requests only for a while, so that several matched-blocks records
+        // are pending, and the client restarts: the map has to be recovered from the earliest record (seed C08-8)
+        if rng.gen_bool(0.12) {
+            for _ in 0..rng.gen_range(2..=4) {
+                env.filter_tick(&mut sim, 0, true);
+                for i in 0..npeers {
+                    if env.peers[i].connected {
+                        env.answer_filter(&mut sim, i, interval);
+                    }
+                }
+            }
+            env.restart(&mut sim);
+        }
     }
     env.reserve = 0;
     let bans0 = env.bans;
@@ -876,6 +889,16 @@ fn fork_scenario(rng: &mut StdRng, sc: usize, out: Box<dyn std::io::Write>, kv: 
                     env.answer_blocks_proof(&mut sim, i);
                 }
                 _ => env.idle_tick(&mut sim),
+            }
+        }
+    }
+    // several matched-blocks records pile up: for a while the peers answer filter requests only (no proofs, no blocks);
+    // with the restart below the in-memory map has to be recovered from the EARLIEST of them (seed C08-8)
+    if rng.gen_bool(0.5) {
+        for _ in 0..rng.gen_range(2..=4) {
+            env.filter_tick(&mut sim, 0, true);
+            for i in 0..npeers {
+                env.answer_filter(&mut sim, i, interval);
             }
         }
     }
